@@ -52,7 +52,8 @@ impl BufList<Bytes> {
         requires old(self).wf(),
         ensures final(self).wf(),
             match r {
-                Some(c) => old(self)@ == c@ + final(self)@ && c@.len() <= max_len && (max_len > 0 ==> c@.len() > 0), // [C02.buflist.take_chunk]
+                Some(c) => old(self)@ == c@ + final(self)@ && c@.len() <= max_len && (max_len > 0 ==> c@.len() > 0)
+                    && c@.len() <= old(self)@.len() && c@ == old(self)@.take(c@.len() as int) && final(self)@ == old(self)@.skip(c@.len() as int), // [C02.buflist.take_chunk]
                 None => old(self)@.len() == 0 && final(self)@.len() == 0,
             },
 //@ret r
